@@ -147,10 +147,13 @@ func capEnabled(c *Client, k imap.Cap) bool {
 //@   loop 0 invariant -1 <= i && len(filtered) + (__ghost("cancelled") - old(__ghost("cancelled"))) == i+1
 //@   loop 0 invariant len(c.contReqs) == old(len(c.contReqs))
 
-// A unilateral EXISTS updates the message count of the summary and nothing else.
+// A unilateral EXISTS updates the message count of the summary and nothing else;
+// while a SELECT/EXAMINE is pending the count belongs to that command (it
+// describes the mailbox being opened) and the summary is left alone.
 //
 //@ func (c *Client) handleExists(num uint32) (err error)
 //@   ensures c.state == old(c.state) && mirrorOK(c)
+//@   ensures __result("findPendingCmdByType") != 0 ==> c.mailbox == old(c.mailbox)
 //@   ensures c.mailbox != old(c.mailbox) ==> c.mailbox.NumMessages == num && c.mailbox.Name == old(c.mailbox.Name) && __same(c.mailbox.Flags, old(c.mailbox.Flags)) && __same(c.mailbox.PermanentFlags, old(c.mailbox.PermanentFlags))
 //@   ensures c.mailbox == old(c.mailbox) && c.mailbox != nil ==> c.mailbox.NumMessages == old(c.mailbox.NumMessages)
 
